@@ -173,10 +173,12 @@ def dds_hash(x: Any) -> PyHash:
         ):
             # TODO: there may be some confusion because we use the same representation for the object
             # and its string
-            if type(elt).__repr__ is object.__repr__:
+            # (the text of a datetime / time includes the text of its time zone)
+            tz = elt if isinstance(elt, datetime.tzinfo) else getattr(elt, "tzinfo", None)
+            if tz is not None and type(tz).__repr__ is object.__repr__:
                 # A tzinfo subclass without a text form: the default text holds a memory address.
                 raise DDSException(
-                    f"The type {type(elt)} has no stable text representation (it does not define __repr__): "
+                    f"The type {type(tz)} has no stable text representation (it does not define __repr__): "
                     f"its values cannot be hashed. Path hint: <{current_path()}>",
                     DDSErrorCode.TYPE_NOT_SUPPORTED,
                 )
